@@ -468,7 +468,7 @@ def run_check(prop: str, tier: str, seed: int) -> int:
         print(line)
     print(f"[{prop} {tier} seed={seed}] evaluations={total.evaluations} "
           f"distinct_nontrivial={len(total.nontrivial)} buckets={len(total.failures)} "
-          f"violations={len(violations)} truncated={total.truncated} wall={wall:.1f}s")
+          f"violations={len(violations)} invalid={total.invalid} truncated={total.truncated} wall={wall:.1f}s")
     return 1 if violations else 0
 
 
